@@ -1,2 +1,3 @@
 //! Seeded workload generators (pure functions of their parameters).
 pub mod bytes;
+pub mod sam;
